@@ -420,6 +420,25 @@ func vHostile(r *rand.Rand, b vBase, nFlips int) []vVariant {
 	add("reenc-leading-space", "reencoded", "signer", " "+validCompact, natural)
 	add("reenc-trailing-newline", "reencoded", "signer", validCompact+"\n", natural)
 	add("reenc-inner-newline", "reencoded", "signer", parts[0]+".\n"+parts[1]+"."+parts[2], natural)
+	// CR / LF inside or after segments: Go's base64 decoders (Strict() too) and jwx skip them, the bytes are not the
+	// canonical compact serialisation any more
+	mid := func(p string, ins string) string { return p[:len(p)/2] + ins + p[len(p)/2:] }
+	add("reenc-lf-inside-seg0", "reencoded", "signer", mid(parts[0], "\n")+"."+parts[1]+"."+parts[2], natural)
+	add("reenc-crlf-inside-seg1", "reencoded", "signer", parts[0]+"."+mid(parts[1], "\r\n")+"."+parts[2], natural)
+	add("reenc-lf-inside-seg2", "reencoded", "signer", parts[0]+"."+parts[1]+"."+mid(parts[2], "\n"), natural)
+	add("reenc-cr-after-seg0", "reencoded", "signer", parts[0]+"\r."+parts[1]+"."+parts[2], natural)
+	add("reenc-crlf-after-seg2", "reencoded", "signer", validCompact+"\r\n", natural)
+	add("reenc-lf-every-64", "reencoded", "signer", func() string {
+		var sb strings.Builder
+		for i := 0; i < len(validCompact); i += 64 {
+			e := i + 64
+			if e > len(validCompact) {
+				e = len(validCompact)
+			}
+			sb.WriteString(validCompact[i:e] + "\n")
+		}
+		return sb.String()
+	}(), natural)
 	add("reenc-two-segments", "truncated", "nobody", parts[0]+"."+parts[1], natural)
 	add("reenc-empty-signature", "truncated", "nobody", parts[0]+"."+parts[1]+".", natural)
 	// header re-serialised with different JSON spacing and signed again: a different but valid token
